@@ -10,6 +10,16 @@ NAMES = ["build", "test", "clean", "deploy", "_helper", "lint", "fmt", "zz", "aa
 OS_ATTRS = [None, None, None, "linux", "unix", "windows", "macos", "openbsd"]
 
 
+# (documentation displayed, source lines declaring it): comments, [doc(...)] strings whose source text differs from their
+# value (escapes, triple quotes), [doc] suppressing a comment, the attribute winning over a comment
+DOCS = [(None, []), (None, []), (None, []), ("doc of NM", ["# doc of NM"]), ("doc of NM", ["# doc of NM"]),
+        ("single # NM", ["[doc('single # NM')]"]),
+        ('say "NM"\tnow \\ caf\u00e9', ['[doc("say \\"NM\\"\\tnow \\\\ caf\\u{e9}")]']),
+        ("tri NM", ["[doc(\'\'\'tri NM\'\'\')]"]),
+        (None, ["# hidden NM", "[doc]"]),
+        ("attr NM", ["# comment NM", '[doc("attr NM")]'])]
+
+
 def gen(rng):
     """A module tree: root (with an import) and up to two submodules."""
 
@@ -26,9 +36,12 @@ def gen(rng):
             if priv_attr:
                 attrs.append("private")
             groups = rng.sample(["g1", "g2"], rng.choice([0, 0, 1, 2]))
-            doc = rng.choice([None, None, "doc of " + nm])
-            params = rng.choice([[], [], ["a"], ["a='d'"], ["*a"], ["+a"], ["a", "b='x'"], ["+a='y'"]])
-            recipes.append({"name": nm, "id": prefix + nm, "attrs": attrs, "groups": groups, "doc": doc, "params": params,
+            doc, doc_src = rng.choice(DOCS)
+            if doc is not None:
+                doc = doc.replace("NM", nm)
+            doc_src = [x.replace("NM", nm) for x in doc_src]
+            params = rng.choice([[], [], ["a"], ["a='d'"], ["*a"], ["+a"], ["a", "b='x'"], ["+a='y'"], ["$a", "*$b"], ["a=\"q\\tz\""]])
+            recipes.append({"name": nm, "id": prefix + nm, "attrs": attrs, "groups": groups, "doc": doc, "doc_src": doc_src, "params": params,
                             "enabled": osattr in (None, "linux", "unix"),
                             "private": nm.startswith("_") or priv_attr,
                             "min": sum(1 for x in params if "=" not in x and not x.startswith("*"))})
@@ -38,7 +51,7 @@ def gen(rng):
     root = module("", 0)
     # the chooser needs a harmless public recipe it can always pick
     if not any(r["name"] == "noop" for r in root["recipes"]):
-        root["recipes"].append({"name": "noop", "id": "noop", "attrs": [], "groups": [], "doc": None, "params": [], "enabled": True,
+        root["recipes"].append({"name": "noop", "id": "noop", "attrs": [], "groups": [], "doc": None, "doc_src": [], "params": [], "enabled": True,
                                 "private": False, "min": 0})
     for sm in rng.sample(["foo", "bar"], rng.choice([0, 1, 2])):
         root["subs"].append(dict(module(sm + "::", 1), name=sm))
@@ -57,8 +70,8 @@ def gen(rng):
 
 def recipe_text(r, offset_note=""):
     t = ""
-    if r["doc"]:
-        t += "# %s\n" % r["doc"]
+    for l in r.get("doc_src", ["# " + r["doc"]] if r["doc"] else []):
+        t += l + "\n"
     for a in r["attrs"]:
         t += "[%s]\n" % a
     for g in r["groups"]:
@@ -134,6 +147,51 @@ def parse_list(out):
     return names, modules
 
 
+def parse_list_full(out):
+    """Every entry of a --list: (group or None, name, signature text, doc or None, [aliases])."""
+    entries = []
+    group = None
+    for l in out.split("\n")[1:]:
+        if not l.startswith("    ") or l[4:].startswith(" "):
+            continue
+        body = l[4:]
+        if body.startswith("["):
+            group = body.strip()[1:-1]
+            continue
+        sig, sep, rest = body.partition(" # ")
+        sig = sig.rstrip()
+        if sig.endswith(" ..."):
+            continue
+        doc, aliases = (rest if sep else None), []
+        if doc is not None:
+            m = re.search(r"(?:^| )\[alias(?:es)?: ([^\]]*)\]$", doc)
+            if m:
+                aliases = m.group(1).split(", ")
+                doc = doc[:m.start()] or None
+        entries.append({"group": group, "name": sig.split(" ")[0], "sig": sig, "doc": doc, "aliases": aliases})
+    return entries
+
+
+def declared_check(mod, entries, jrecipes):
+    """Groups, documentation and parameters displayed by --list (and the dump's doc) are the ones declared."""
+    for rcp in mod["recipes"]:
+        if not rcp["enabled"] or rcp["private"]:
+            continue
+        mine = [e for e in entries if e["name"] == rcp["name"]]
+        want_sig = " ".join([rcp["name"]] + rcp["params"])
+        want_groups = sorted(rcp["groups"]) or [None]
+        if sorted((e["group"] for e in mine), key=str) != sorted(want_groups, key=str):
+            return ("list-groups", rcp["name"], [e["group"] for e in mine], want_groups)
+        for e in mine:
+            if e["sig"] != want_sig:
+                return ("list-parameters", rcp["name"], e["sig"], want_sig)
+            if e["doc"] != rcp["doc"]:
+                return ("list-doc", rcp["name"], e["doc"], rcp["doc"])
+        if jrecipes is not None and rcp["name"] in jrecipes and jrecipes[rcp["name"]]["doc"] != rcp["doc"]:
+            return ("json-doc", rcp["name"], jrecipes[rcp["name"]]["doc"], rcp["doc"])
+    return None
+
+
 def run_case(arg):
     root, files = arg
     with C.scratch("c17") as d:
@@ -156,12 +214,22 @@ def run_case(arg):
         rc, out, err = just("--list")
         res["list"], res["list_modules"] = parse_list(out)
         res["list_raw"] = out
+        res["list_entries"] = parse_list_full(out)
+        res["sub_list_entries"] = {}
+        for s_ in root["subs"]:
+            rc_, out_, err_ = just("--list", s_["name"])
+            res["sub_list_entries"][s_["name"]] = parse_list_full(out_)
+        rc_, out_, err_ = just("--groups")
+        res["groups"] = [l.strip() for l in out_.split("\n")[1:] if l.strip()]
         rc, out, err = just("--list", "--unsorted")
         res["list_unsorted"], _ = parse_list(out)
         rc, out, err = just("--dump", "--dump-format", "json")
         try:
             j = json.loads(out)
             res["json_all"] = sorted(j["recipes"].keys())
+            res["json_docs"] = {"": {k: {"doc": v["doc"]} for k, v in j["recipes"].items()}}
+            for mk, mv in j["modules"].items():
+                res["json_docs"][mk] = {k: {"doc": v["doc"]} for k, v in mv["recipes"].items()}
             res["json_public"] = sorted(k for k, v in j["recipes"].items() if not v["private"] and
                                         not any(a == "private" for a in v["attributes"]))
             res["json_aliases"] = {k: v["target"] for k, v in j["aliases"].items()}
@@ -244,7 +312,7 @@ def run(report):
     reqs = [{"op": "listing", "root": model_of(root), "names": [r["name"] for r in root["recipes"] if r["enabled"]] + [a["name"] for a in root["aliases"]],
              "showByName": False} for root, _ in cases]
     model = drv.pbatch(reqs, chunk=1000)
-    stats = {"programs": n, "names_compared": 0, "aliases": 0, "aliases_to_submodules": 0, "private_names_run": 0, "commands": 0}
+    stats = {"programs": n, "names_compared": 0, "aliases": 0, "aliases_to_submodules": 0, "private_names_run": 0, "commands": 0, "declared_docs_compared": 0}
     distinct = set()
     samples = []
     for (root, files), r, m in zip(cases, results, model):
@@ -253,7 +321,7 @@ def run(report):
         want = spec(root)
         distinct.add(json.dumps(files, sort_keys=True))
         replay = {"files": files, "observed": {k: v for k, v in r.items() if k not in ("list_raw",)}, "expected": want}
-        stats["commands"] += 7 + 2 * len(r["targets"])
+        stats["commands"] += 8 + len(root["subs"]) + 2 * len(r["targets"])
         bad = None
         if r["summary"] != want["summary"]:
             bad = ("summary", r["summary"], want["summary"])
@@ -289,6 +357,19 @@ def run(report):
         if bad:
             report.failure("c17-view:%s" % bad[0], "%s lists %s, documented %s" % bad, replay)
             continue
+        # what is displayed is what was declared: groups, documentation, parameters
+        dbad = declared_check(root, r["list_entries"], (r.get("json_docs") or {}).get(""))
+        for s_ in root["subs"]:
+            dbad = dbad or declared_check(s_, r["sub_list_entries"].get(s_["name"], []), (r.get("json_docs") or {}).get(s_["name"]))
+        if not dbad:
+            pub_groups = sorted({g for x in root["recipes"] if x["enabled"] and not x["private"] for g in x["groups"]})
+            all_groups = {g for x in root["recipes"] for g in x["groups"]}
+            if not (set(pub_groups) <= set(r["groups"]) <= all_groups):
+                dbad = ("groups", "--groups", r["groups"], pub_groups)
+        if dbad:
+            report.failure("c17-declared:%s" % dbad[0], "%s of `%s`: displayed %r, declared %r" % dbad, dict(replay, name=dbad[1]))
+            continue
+        stats["declared_docs_compared"] += sum(1 for x in root["recipes"] if x["doc"] is not None and x["enabled"] and not x["private"])
         # --show vs run, private names still runnable
         failed = False
         for nm, t in r["targets"].items():
@@ -361,7 +442,7 @@ def run(report):
     report.coverage.update({
         "evaluations": stats["commands"],
         "distinct_nontrivial": len(distinct),
-        "rule": "random justfiles: public / [private] / underscore recipes, OS attributes (enabled and disabled on linux), groups, doc comments, parameters of every kind, an import, up to two submodules, public and private aliases to own and to submodule recipes; --summary, --list (sorted/unsorted), JSON dump, --choose candidates, and for every name --show vs what `just NAME` runs; distinct = distinct file sets",
+        "rule": "random justfiles: public / [private] / underscore recipes, OS attributes (enabled and disabled on linux), groups, doc comments and [doc] attributes (escapes, triple quotes, suppression), parameters of every kind (exported, escaped defaults), an import, up to two submodules, public and private aliases to own and to submodule recipes; --summary, --list (sorted/unsorted), JSON dump, --choose candidates, --groups, the groups / documentation / parameters displayed vs declared (root and `--list MODULE`), and for every name --show vs what `just NAME` runs; distinct = distinct file sets",
         "samples": samples,
         "traces_validated_against_impl": n,
         "stats": stats,
